@@ -153,7 +153,8 @@ Aniso(g, a) ==
 -----------------------------------------------------------------------------
 (* surplus refinement *)
 \* children of flagged points within the limits that are not present
-FlaggedKidsSeq(g, F, ll) == {q \in UNION {Succs(p) : p \in F} : q \notin g.pts /\ WithinLimits(q, ll)}
+\* (the limit of the incremented direction is tested; entries inherited from the flagged point are not re-examined)
+FlaggedKidsSeq(g, F, ll) == UNION {{Repl(p, j, p[j] + 1) : j \in {m \in 1..Len(p) : ll = <<>> \/ ll[m] = -1 \/ p[m] + 1 <= ll[m]}} : p \in F} \ g.pts
 
 \* Sequence: flagged = ratio > tol; need = lower closure of kids and points, minus points
 SurpSequence(g, F) ==
